@@ -31,7 +31,7 @@ def deductive_info():
                   "`yield` as a ghost list, range(n) with symbolic n, the file object's seek as a recorder"],
         "assumptions": ["every atom line of the file has the same byte size (checked by the reader at load time; bounded part)"],
         "explanation": ("Deductive: the offset generators and the seek arithmetic are verified on their AST for run-length lists of any length "
-                        "(loop invariants over the yielded list). That the run-length list describes the file is checked by the bounded part. "),
+                        "(loop invariants over the yielded list). That the run-length list describes the file is proved in d12_parse_vc (`_parse_gro` splits exactly at changes of residue number / name; `_add_residue_init` keeps the run-length invariant); that the records' fields are read correctly is checked by the bounded part. "),
     }
 
 
